@@ -31,7 +31,7 @@ class StateInfo:
         return tuple(sorted(self.fid))
 
 
-def check_recipe(recipe, U, envs, part, pid, extra_check=None, tol=None, describe=None, compare=True):
+def check_recipe(recipe, U, envs, part, pid, extra_check=None, tol=None, describe=None, compare=True, ill_typed_hook=None):
     """Type by L, build on the real API, compare in every environment.
 
     Returns (StateInfo-tuple or None). Violations are recorded in `part`.
@@ -48,6 +48,17 @@ def check_recipe(recipe, U, envs, part, pid, extra_check=None, tol=None, describ
             lts.append(L.interp(recipe, U, ctx))
         except L.LangError:
             part.count("ill_typed")
+            if ill_typed_hook is not None:
+                # inputs the language rejects: the hook decides what the implementation must do with them
+                try:
+                    bad = L.build(recipe, U)
+                except BaseException as e:  # noqa: BLE001
+                    if isinstance(e, (KeyboardInterrupt, SystemExit, MemoryError)):
+                        raise
+                    part.error(type(e).__name__)
+                    part.count("ill_typed_rejected_at_construction")
+                    return None
+                ill_typed_hook(recipe, bad, envs, part, U)
             return None
         except Ambiguous:
             part.count("ambiguous_env")
@@ -144,14 +155,14 @@ def check_recipe(recipe, U, envs, part, pid, extra_check=None, tol=None, describ
     return (recipe, lt0.shape, lt0.fid, lt0.cond, key, nontrivial)
 
 
-def run_level(recipes, U, envs, pid, run, seed=0, extra_check=None, tol=None, sample_every=0, compare=True):
+def run_level(recipes, U, envs, pid, run, seed=0, extra_check=None, tol=None, sample_every=0, compare=True, ill_typed_hook=None):
     """Check a list of candidate recipes in parallel; returns list of new state tuples."""
 
     def work(chunk):
         part = Part()
         out = []
         for r in chunk:
-            res = check_recipe(r, U, envs, part, pid, extra_check, tol, compare=compare)
+            res = check_recipe(r, U, envs, part, pid, extra_check, tol, compare=compare, ill_typed_hook=ill_typed_hook)
             if res is None:
                 continue
             if res[0] == "VIOLATION":
